@@ -56,16 +56,19 @@ def bodyCaps (pos : Nat) : Body → Caps
   | .std (some ln) _ => [(12, pos + ln.chars.length, pos + ln.chars.length + 1), (11, pos, pos + ln.chars.length)]
   | .pri _ l => [(14, pos + 5, pos + 5 + l.chars.length), (13, pos + 4, pos + 5)]
 
-/-- the captures of a directive whose `%` is at `pos`, most recently closed group first (group 2 is the unnamed
-    parenthesis around the whole directive, group 3 `index`, group 4 `flags`) -/
-def dirCaps (pos : Nat) (d : Directive) : Caps :=
-  let p1 := pos + 1
-  let p2 := p1 + (renderIdx d.index).length
+/-- the captures made after the `%`, which is at `pos - 1`: most recently closed group first (group 3 `index`,
+    group 4 `flags`, then width, precision, body) -/
+def tailCaps (pos : Nat) (d : Directive) : Caps :=
+  let p2 := pos + (renderIdx d.index).length
   let p3 := p2 + d.flags.length
   let p4 := p3 + d.width.render.length
   let p5 := p4 + d.prec.render.length
-  let p6 := p5 + d.body.render.length
-  (2, pos, p6) :: (bodyCaps p5 d.body ++ (precCaps p4 d.prec ++ (widthCaps p3 d.width ++ ((4, p2, p3) :: idxCaps 3 p1 d.index))))
+  bodyCaps p5 d.body ++ (precCaps p4 d.prec ++ (widthCaps p3 d.width ++ ((4, p2, p3) :: idxCaps 3 pos d.index)))
+
+/-- the captures of a directive whose `%` is at `pos` (group 2 is the unnamed parenthesis around the whole directive;
+    it closes last) -/
+def dirCaps (pos : Nat) (d : Directive) : Caps :=
+  (2, pos, pos + 1 + d.renderTail.length) :: tailCaps (pos + 1) d
 
 def itemCaps (pos : Nat) : Item → Caps
   | .lit cs => [(1, pos, pos + cs.length)]
